@@ -307,6 +307,77 @@ def c19(tier, seed):
 CHECKS["C19"] = c19
 
 
+def _search(prop, tier, seed, flavour, searches, maxdepth, extra=None, timeout=2400):
+    exe = ensure_monitor(flavour, "search_monitor")
+    argvs = []
+    for i, sd in enumerate(_seeds(seed)):
+        a = [exe, "--prop", prop, "--seed", str(sd), "--searches", str(searches), "--maxdepth", str(maxdepth)]
+        if extra:
+            a += extra(i)
+        argvs.append(a)
+    c = Check(prop, tier, seed)
+    for w in run_workers(argvs, timeout):
+        c.absorb(w)
+    return c
+
+
+SEARCH_ASSUME = ["oracle/ legal-move generator decides legality of bestmove and pv moves",
+                 "roots have at least one legal move (the statement's precondition); half-move clock <= 140"]
+
+
+def c05(tier, seed):
+    q = tier == "quick"
+    c = _search("C05", tier, seed, "asan", 220 if q else 4000, 5 if q else 6)
+    if not q:
+        _merge(c, _search("C05", tier, seed + 500, "rel", 12000, 6))
+    c.level = "fault_enumeration"
+    c.rule = ("in-process Search::go with captured output: positions x limits {depth, nodes, movetime incl. 1/-5 ms, clocks incl. 0/1/-1 ms, "
+              "searchmoves, infinite} x table state {fresh, warm, poisoned with illegal moves / extreme scores / stale epochs under the exact "
+              "keys of root, children, grandchildren} x stop delivered at an exact node visit k through the node hook (all k=1..64 on every "
+              "16th root, random k up to 10^5); exactly one bestmove, legal; every pv replayed on the oracle board; "
+              "non-trivial = distinct (position, go, table) triples")
+    c.assumptions = SEARCH_ASSUME + ["poisoned tables are judged for legality only"]
+    c.require("searches:poisoned", 300)
+    c.require("stop:before-iter1", 100)
+    c.require("stop:later", 50)
+    c.require("pv-lines-replayed", 3000)
+    return c.finish()
+
+
+def c08(tier, seed):
+    q = tier == "quick"
+    c = _search("C08", tier, seed, "asan", 150 if q else 2500, 5 if q else 6)
+    if not q:
+        _merge(c, _search("C08", tier, seed + 500, "rel", 10000, 7))
+    c.rule = ("searches of mate-in-N skeletons (cornered king, heavy attackers), near-mates and ordinary roots, fresh and warm tables "
+              "(never poisoned): a root with a mate in one must answer with a mating move at every depth; every final `score mate y` "
+              "is decided by the oracle's exhaustive AND/OR mate solver (engine's own unit first, then the y-moves reading, within a "
+              "node budget; budget exhaustion is counted as unverified, never as a violation); non-trivial = distinct (position, go, table)")
+    c.assumptions = SEARCH_ASSUME + ["mate claims longer than the solver budget allows are reported as unverified"]
+    c.require("mate-in-one-roots", 100)
+    c.require("mate-announcements", 150)
+    c.require("mate-announcements-verified", 100)
+    return c.finish()
+
+
+def c09(tier, seed):
+    q = tier == "quick"
+    c = _search("C09", tier, seed, "asan", 120 if q else 2500, 5 if q else 6, extra=lambda i: ["--deep"] if i < 2 else [])
+    if not q:
+        _merge(c, _search("C09", tier, seed + 500, "rel", 8000, 7, extra=lambda i: ["--deep"] if i < 2 else []))
+    c.rule = ("info-depth sequence 1..k<=d without gaps, bestmove in searchmoves (random subsets; subsets that exclude the move a deeper "
+              "search just stored for the root, with and without epoch bump), time/clock/movestogo limits terminate (node-visit cap as "
+              "logical witness), depth limits 39/40/41/42/60/100/1000 on cheap positions; non-trivial = distinct (position, go, table)")
+    c.assumptions = SEARCH_ASSUME + ["termination for large depth limits is decided on cheap positions only (bounded restatement, DESIGN.md C09)"]
+    c.require("deep-limit-searches", 80)
+    c.require("searches:root-entry-outside-S:epoch-bumped", 50)
+    c.require("searches:root-entry-outside-S:same-epoch", 50)
+    return c.finish()
+
+
+CHECKS.update({"C05": c05, "C08": c08, "C09": c09})
+
+
 MONITORS = {
     "api_monitor": ("asan", "rel"),
     "tables_monitor": ("asan", "rel"),
@@ -314,6 +385,7 @@ MONITORS = {
     "time_monitor": ("asan", "rel"),
     "eval_monitor": ("asan", "rel"),
     "book_monitor": ("asan", "rel"),
+    "search_monitor": ("asan", "rel"),
 }
 
 
